@@ -138,9 +138,11 @@ func decodeBinaryValue(reader ByteRuneReader, flag int32) ([]byte, error) {
 		if err != nil {
 			return nil, err
 		}
-		if newLength < length {
+		// every chunk has its own length, which may be larger than that of the first chunk
+		if newLength > cap(buf) {
+			buf = make([]byte, newLength)
+		} else {
 			buf = buf[:newLength]
-			length = newLength
 		}
 	}
 
